@@ -10,7 +10,7 @@ import os, json, hashlib, re, time
 import cb
 from cb import ToolError, Report, log
 import checks
-from checks import register, Drift
+from checks import register, Drift, ConformanceDrift
 
 SEG = None  # path of the harness binary, set by build()
 
@@ -282,7 +282,10 @@ class SegRun:
             log(f"  note: also observed (reported by its own check): {f}")
         rc = self.rep.finish()
         if rc == 0 and self.drifts:
-            raise Drift("; ".join(self.drifts[:3]))
+            hard = [d for d in self.drifts if d.startswith("write()/snapshot() access sequence is outside")]
+            if hard:
+                raise Drift("; ".join(hard[:1]))
+            raise ConformanceDrift("; ".join(self.drifts[:3]))
         return rc
 
 
